@@ -84,6 +84,9 @@ def parse_template(path: str):
             m = re.match(r"//@ prepend (\S+) <<", s)
             body, i = multiline(i)
             unit["prepends"].append((m.group(1), body))
+        elif s.startswith("//@ include "):
+            inc = os.path.join(os.path.dirname(path), s.split()[2])
+            unit["module"] += open(inc, encoding="utf-8").read().split("\n")
         elif s.startswith("//@ H "):
             pending = parse_kv(s[6:])
             unit["module"].append(lines[i])
@@ -259,12 +262,13 @@ def playback(ws: str, package: str, flags: list, hname: str, log_dir: str, modfi
     except subprocess.TimeoutExpired:
         return dict(generated=False, reason="playback generation timed out")
     txt = open(log1, errors="replace").read()
-    m = re.search(r"```\s*\n(.*?#\[test\].*?)```", txt, re.S)
-    if not m:
+    blocks = re.findall(r"```\s*\n(.*?#\[test\].*?)```", txt, re.S)
+    if not blocks:
         return dict(generated=False, reason="kani produced no concrete playback test", log_tail=txt[-1500:])
-    test_src = m.group(1)
-    tm = re.search(r"fn (kani_concrete_playback_\w+)", test_src)
-    test = tm.group(1)
+    # Kani emits one test per failed check AND per satisfied cover; run them all, any native failure confirms
+    test_src = "\n".join(blocks)
+    names = re.findall(r"fn (kani_concrete_playback_\w+)", test_src)
+    test = "kani_concrete_playback_" + hname + "_"
     path = os.path.join(ws, modfile)
     src = open(path).read()
     k = src.rstrip().rfind("}")
@@ -282,7 +286,8 @@ def playback(ws: str, package: str, flags: list, hname: str, log_dir: str, modfi
         rc = -9
     out = open(log2, errors="replace").read()
     pm = re.search(r"panicked at [^\n]*\n[^\n]*", out)
-    ran = "running 1 test" in out
+    ran = re.search(r"running [1-9]\d* tests?", out) is not None
     confirmed = ran and rc != 0 and ("panicked at" in out or "test result: FAILED" in out)
-    return dict(generated=True, test=test, test_source=test_src, native_ran=ran, native_rc=rc, confirmed=confirmed,
+    failed_tests = re.findall(r"test \S*(kani_concrete_playback_\w+) \.\.\. FAILED", out)
+    return dict(generated=True, test=test, tests=names, failed_tests=failed_tests, test_source=test_src, native_ran=ran, native_rc=rc, confirmed=confirmed,
                 native_panic=pm.group(0) if pm else "", native_tail=out[-1200:], cmd=" ".join(cmd2))
